@@ -1134,6 +1134,16 @@ fn catalogue_inner(prop: &str, t: Tier, seed: u64, out: &mut Vec<Entry>) {
             let f = vec!["CanonicalSerialize/CanonicalDeserialize/Valid impls of every UniversalParams, CommitterKey, VerifierKey, Commitment, CommitmentState, Proof, BatchProof, BatchLCProof", "check/batch_check with deserialized inputs"];
             let quick = t == Tier::Quick;
             let symtxt = "polynomial coefficients, points, challenges, blinding (they select option/shape variants and special values); the round trips themselves are concrete";
+            {
+                let mut en = e("kzg10/powers".into(), t, "nothing (concrete)", "kzg10::Powers from Marlin and Sonic keys: (supported, hiding) in {(3,1),(2,2),(2,4),(1,6),(8,0)}, plain and shifted".into(), move || c12::kzg_powers(seed));
+                en.funcs = vec!["kzg10::Powers::{serialize_with_mode,serialized_size,deserialize_with_mode,check}", "marlin_pc::CommitterKey::{powers,shifted_powers}", "sonic_pc::CommitterKey::{powers,shifted_powers}"];
+                out.push(en);
+                for nv in if quick { vec![1usize, 3] } else { vec![1usize, 2, 3, 4] } {
+                    let mut en = e(format!("mlpst/artefacts-nv{}", nv), t, "nothing (concrete)", format!("{} variables", nv), move || c12::mlpst_artefacts(nv, seed));
+                    en.funcs = vec!["multilinear_pc::{UniversalParams,CommitterKey,VerifierKey,Commitment,Proof} (derived impls)"];
+                    out.push(en);
+                }
+            }
             macro_rules! fam {
                 ($S:ty) => {{
                     let name = <$S as Sch>::NAME;
